@@ -3052,3 +3052,491 @@ func ruleDeferRecover(c *ctx.Ctx, r *core.Reporter) {
 	})
 	r.Check(special != token.NoPos && (lambda == token.NoPos || special < lambda), "recover-not-wrapped", c.Pos(fd.Pos()), "`defer recover()` pushes $recover itself: wrapped in the proxy lambda it would be a recover called directly by a deferred function and stop the panic (Go: `defer recover()` does not recover)")
 }
+
+// ruleTupleAssign: Go spec, Assignment statements: "The assignment proceeds in two phases. First, the
+// operands of index expressions and pointer indirections (including implicit pointer indirections in
+// selectors) on the left and the expressions on the right are all evaluated in the usual order. Second,
+// the assignments are carried out in left-to-right order." The translator carries the assignments out one
+// after the other, so left-hand operands that an earlier assignment of the statement can change have to be
+// put into temporaries first (`prev, cur, cur.next = cur, cur.next, prev`).
+func ruleTupleAssign(c *ctx.Ctx, r *core.Reporter) {
+	r.Begin("C01.tuple-assign", "F-MUST", "in the n:n arm of the assignment statement every left-hand side passes through a helper that stores the operands of index expressions, pointer indirections and selectors through pointers in temporaries, before the right-hand sides are evaluated", 2)
+	ts := c.FuncDecl("compiler", "funcContext.translateStmt")
+	if ts == nil {
+		r.Undecided("translateStmt", "compiler/statements.go", "not found")
+		return
+	}
+	// the n:n arm: case len(s.Lhs) == len(s.Rhs)
+	var arm *ast.CaseClause
+	ast.Inspect(ts.Body, func(x ast.Node) bool {
+		if cc, ok := x.(*ast.CaseClause); ok && len(cc.List) == 1 && squash(exprStr(cc.List[0])) == "len(s.Lhs)==len(s.Rhs)" {
+			arm = cc
+		}
+		return true
+	})
+	if arm == nil {
+		r.Undecided("arm", c.Pos(ts.Pos()), "no `case len(s.Lhs) == len(s.Rhs)` arm")
+		return
+	}
+	// a loop over s.Lhs that calls a method of fc on the (paren-free) lhs and stores the result
+	helper := ""
+	helperPos := token.NoPos
+	for _, st := range arm.Body {
+		rs, ok := st.(*ast.RangeStmt)
+		if !ok || exprStr(rs.X) != "s.Lhs" {
+			continue
+		}
+		ast.Inspect(rs.Body, func(x ast.Node) bool {
+			as, ok := x.(*ast.AssignStmt)
+			if !ok || len(as.Rhs) != 1 {
+				return true
+			}
+			if ce, ok := as.Rhs[0].(*ast.CallExpr); ok {
+				if se, ok := ce.Fun.(*ast.SelectorExpr); ok && c.FuncDecl("compiler", "funcContext."+se.Sel.Name) != nil && helper == "" {
+					if _, isIndex := as.Lhs[0].(*ast.IndexExpr); isIndex {
+						helper = se.Sel.Name
+						helperPos = rs.Pos()
+					}
+				}
+			}
+			return true
+		})
+	}
+	// the loop that evaluates the right-hand sides
+	rhsPos := token.NoPos
+	for _, st := range arm.Body {
+		if rs, ok := st.(*ast.RangeStmt); ok && exprStr(rs.X) == "s.Rhs" && rhsPos == token.NoPos {
+			rhsPos = rs.Pos()
+		}
+	}
+	r.Check(helper != "" && rhsPos != token.NoPos && helperPos < rhsPos, "lhs-operands-fixed-first", c.Pos(arm.Pos()), "every left-hand side goes through a helper of funcContext in a loop of its own that precedes the evaluation of the right-hand sides"+ternary(helper != "", " (helper: "+helper+")", ""))
+	if helper == "" {
+		return
+	}
+	hd := c.FuncDecl("compiler", "funcContext."+helper)
+	covers := map[string]bool{}
+	ast.Inspect(hd.Body, func(x ast.Node) bool {
+		if cc, ok := x.(*ast.CaseClause); ok {
+			for _, l := range cc.List {
+				k := exprStr(l)
+				// the arm builds a replacement node from temporaries
+				makesTmp := false
+				ast.Inspect(cc, func(y ast.Node) bool {
+					if cl, ok := y.(*ast.CompositeLit); ok && strings.HasPrefix(exprStr(cl.Type), "ast.") {
+						makesTmp = true
+					}
+					return true
+				})
+				if makesTmp {
+					covers[k] = true
+				}
+			}
+		}
+		return true
+	})
+	var missing []string
+	for _, k := range []string{"*ast.IndexExpr", "*ast.StarExpr", "*ast.SelectorExpr"} {
+		if !covers[k] {
+			missing = append(missing, k)
+		}
+	}
+	usesTmp := len(callsNamed(hd.Body, "newLocalVariable")) > 0
+	r.Check(len(missing) == 0 && usesTmp, "helper-covers-indirections", c.Pos(hd.Pos()), fmt.Sprintf("%s rebuilds index expressions, pointer indirections and selectors with operands held in fresh temporaries%s", helper, ternary(len(missing) > 0, fmt.Sprintf(" (no arm for %v)", missing), "")))
+}
+
+// ruleC13MapPresence: sync.Map distinguishes "no entry" from "entry whose value is nil" (Store(k, nil) is a
+// stored entry: Load returns (nil, true), LoadOrStore returns (nil, true) and keeps it). nosync.Map is a Go
+// map underneath; presence has to be decided with the comma-ok form of the index expression, never by
+// comparing the looked-up value with nil.
+func ruleC13MapPresence(c *ctx.Ctx, r *core.Reporter) {
+	r.Begin("C13.map-presence", "F-MUST", "every read of the underlying map in the methods of nosync.Map is a comma-ok index expression", 2)
+	p := c.Pkg("nosync")
+	if p == nil {
+		r.Undecided("pkg", "nosync", "not loaded")
+		return
+	}
+	n := 0
+	for _, fd := range c.AllFuncDecls("nosync") {
+		if fd.Body == nil || fd.Recv == nil || c.IsTestFile(fd.Pos()) || !strings.HasSuffix(strings.TrimPrefix(exprStr(fd.Recv.List[0].Type), "*"), "Map") {
+			continue
+		}
+		// parent map
+		parents := map[ast.Node]ast.Node{}
+		var stack []ast.Node
+		ast.Inspect(fd.Body, func(x ast.Node) bool {
+			if x == nil {
+				stack = stack[:len(stack)-1]
+				return true
+			}
+			if len(stack) > 0 {
+				parents[x] = stack[len(stack)-1]
+			}
+			stack = append(stack, x)
+			return true
+		})
+		ast.Inspect(fd.Body, func(x ast.Node) bool {
+			ix, ok := x.(*ast.IndexExpr)
+			if !ok {
+				return true
+			}
+			tv, ok := p.TypesInfo.Types[ix.X]
+			if !ok {
+				return true
+			}
+			if _, isMap := tv.Type.Underlying().(*types.Map); !isMap {
+				return true
+			}
+			par := parents[ix]
+			if as, ok := par.(*ast.AssignStmt); ok {
+				for _, l := range as.Lhs {
+					if l == ast.Expr(ix) {
+						return true // a store
+					}
+				}
+				n++
+				r.Check(len(as.Lhs) == 2 && len(as.Rhs) == 1, fmt.Sprintf("comma-ok:%s#%d", ctx.FuncName(fd), n), c.Pos(ix.Pos()), fmt.Sprintf("`%s` reads the map with the comma-ok form", nodeString(c, as)))
+				return true
+			}
+			n++
+			r.Violation(fmt.Sprintf("comma-ok:%s#%d", ctx.FuncName(fd), n), c.Pos(ix.Pos()), fmt.Sprintf("`%s` is read without the comma-ok form: a stored nil value cannot be told from a missing key (sync.Map: Store(k, nil); LoadOrStore(k, v) returns (nil, true))", exprStr(ix)))
+			return true
+		})
+	}
+	r.Check(n >= 2, "sites", "nosync/map.go", fmt.Sprintf("%d reads of the underlying map", n))
+}
+
+// ruleDeferredAfterRecovery: deferred calls run exactly once, all of them. When a deferred call recovers
+// the panic while $callDeferred runs at the END of the function (the call had suspended and was resumed),
+// the frame's remaining deferred calls still have to run: the "recovered" branch may leave the loop only
+// by unwinding to the function (fromPanic), not by returning.
+func ruleDeferredAfterRecovery(c *ctx.Ctx, r *core.Reporter) {
+	r.Begin("C08.deferred-after-recovery", "F-MUST", "in $callDeferred the branch taken when a deferred call recovered the panic does not return: it throws to the function frame when called from $panic and otherwise goes on with the remaining deferred calls", 1)
+	if !needPrelude(c, r) {
+		return
+	}
+	fn := c.PreludeFunc("$callDeferred")
+	if fn == nil {
+		r.Undecided("$callDeferred", "compiler/prelude/goroutines.js", "not found")
+		return
+	}
+	n := 0
+	fn.Walk(func(x *ctx.JSNode) bool {
+		if !x.Is("IfStatement") || !strings.Contains(squash(x.N("test").Src()), "$panicStackDepth===null") {
+			return true
+		}
+		n++
+		returns := false
+		x.N("consequent").Walk(func(y *ctx.JSNode) bool {
+			if y.Is("ReturnStatement") {
+				returns = true
+			}
+			return !y.IsFunc()
+		})
+		r.Check(!returns, fmt.Sprintf("recovered-branch-does-not-return#%d", n), x.Pos(), "after a recovery at the end of the function the loop continues with the frame's remaining deferred calls (a `return` here skips them: `defer println(\"last\"); defer func() { yield(); recover() }(); panic(…)` never prints \"last\")")
+		return true
+	})
+	r.Check(n >= 1, "sites", fn.Pos(), fmt.Sprintf("%d recovered-branch(es) found", n))
+}
+
+// ruleSliceElemOffset: element i of a slice lives at <s>.$array[<s>.$offset + i]. An access to $array whose
+// index does not add the offset of the same slice reads the backing array from its start, which is only the
+// same thing for slices that were never re-sliced.
+func ruleSliceElemOffset(c *ctx.Ctx, r *core.Reporter) {
+	r.Begin("C11.elem-offset", "F-KEY", "every element access <s>.$array[…] in the prelude and in the compiler's templates adds <s>.$offset of the same slice", 4)
+	if !needPrelude(c, r) {
+		return
+	}
+	n := 0
+	for _, f := range c.PreludeList() {
+		f.AST.Walk(func(x *ctx.JSNode) bool {
+			if !(x.Is("MemberExpression") && x.B("computed") && x.N("object").MemberName() == "$array") {
+				return true
+			}
+			owner := squash(x.N("object").N("object").Src())
+			idx := squash(x.N("property").Src())
+			n++
+			r.Check(strings.Contains(idx, owner+".$offset"), fmt.Sprintf("prelude:%s:%s.$array[%s]", strings.TrimPrefix(f.Name, "compiler/prelude/"), owner, idx), x.Pos(), fmt.Sprintf("`%s` indexes the backing array of `%s` relative to its $offset", squash(x.Src()), owner))
+			return true
+		})
+	}
+	for _, t := range usableTemplates(c) {
+		if !strings.Contains(t.Text, ".$array[") {
+			continue
+		}
+		n++
+		ok := true
+		holeArg := func(h string) string {
+			if mm := holeNumRe.FindStringSubmatch(h); mm != nil {
+				var hi int
+				fmt.Sscanf(mm[1], "%d", &hi)
+				if hi < len(t.Holes) {
+					if args := t.FmtArgs(); t.Holes[hi].Index >= 0 && t.Holes[hi].Index < len(args) {
+						return exprStr(args[t.Holes[hi].Index])
+					}
+				}
+			}
+			return h
+		}
+		for _, m := range arrayIndexRe.FindAllStringSubmatch(t.Text, -1) {
+			same := false
+			for _, om := range offsetOwnerRe.FindAllStringSubmatch(m[2], -1) {
+				if holeArg(om[1]) == holeArg(m[1]) {
+					same = true
+				}
+			}
+			if !same {
+				ok = false
+			}
+		}
+		r.Check(ok, "template:"+t.Key(), c.Pos(t.Pos), "`"+t.Text+"` indexes $array relative to the $offset of the same operand")
+	}
+	r.Check(n >= 4, "sites", "compiler/prelude", fmt.Sprintf("%d element accesses examined", n))
+}
+
+var offsetOwnerRe = regexp.MustCompile(`(⟨\d+⟩|[A-Za-z_$][\w$]*)\.\$offset`)
+
+var arrayIndexRe = regexp.MustCompile(`(⟨\d+⟩|[A-Za-z_$][\w$]*)\.\$array\[([^\]]*)\]`)
+
+// ruleRuntimeErrorTypes: every value the runtime overlay panics with for a run-time error implements
+// runtime.Error, i.e. its type has a RuntimeError() method (error alone is not enough: code that recovers
+// and re-panics everything that is not a runtime.Error lets the value escape).
+func ruleRuntimeErrorTypes(c *ctx.Ctx, r *core.Reporter) {
+	r.Begin("C08.runtime-error-types", "F-SIB", "every named type the runtime overlay converts a panic value to has a RuntimeError() method", 1)
+	nat := c.Natives()
+	hasMethod := map[string]bool{}
+	declared := map[string]bool{}
+	for _, f := range nat.PkgFiles("runtime") {
+		for _, d := range f.AST.Decls {
+			switch x := d.(type) {
+			case *ast.FuncDecl:
+				if x.Recv != nil && x.Name.Name == "RuntimeError" && len(x.Recv.List) == 1 {
+					hasMethod[strings.TrimPrefix(exprStr(x.Recv.List[0].Type), "*")] = true
+				}
+			case *ast.GenDecl:
+				for _, sp := range x.Specs {
+					if ts, ok := sp.(*ast.TypeSpec); ok {
+						declared[ts.Name.Name] = true
+					}
+				}
+			}
+		}
+	}
+	n := 0
+	for _, f := range nat.PkgFiles("runtime") {
+		ast.Inspect(f.AST, func(x ast.Node) bool {
+			ce, ok := x.(*ast.CallExpr)
+			if !ok || len(ce.Args) != 1 {
+				return true
+			}
+			if id, ok := ce.Fun.(*ast.Ident); !ok || id.Name != "panic" {
+				return true
+			}
+			arg := ast.Unparen(ce.Args[0])
+			if ue, ok := arg.(*ast.UnaryExpr); ok && ue.Op == token.AND {
+				if cl, ok := ue.X.(*ast.CompositeLit); ok {
+					if id, ok := cl.Type.(*ast.Ident); ok && declared[id.Name] {
+						n++
+						r.Check(hasMethod[id.Name], fmt.Sprintf("runtime-error:%s#%d", id.Name, n), nat.Pos(c, ce.Pos()), fmt.Sprintf("`%s`: %s has a RuntimeError() method", exprStr(ce), id.Name))
+					}
+				}
+				return true
+			}
+			if conv, ok := arg.(*ast.CallExpr); ok && len(conv.Args) == 1 {
+				if id, ok := conv.Fun.(*ast.Ident); ok && declared[id.Name] {
+					n++
+					r.Check(hasMethod[id.Name], fmt.Sprintf("runtime-error:%s#%d", id.Name, n), nat.Pos(c, ce.Pos()), fmt.Sprintf("`%s`: %s has a RuntimeError() method (a run-time panic value that is only an `error` escapes handlers that re-panic everything but runtime.Error)", exprStr(ce), id.Name))
+				}
+			}
+			return true
+		})
+	}
+	r.Check(n >= 1, "sites", nativesRootRel+"/runtime", fmt.Sprintf("%d panics with a value of an overlay-declared type", n))
+}
+
+// ruleC12DirectiveImportByPath: pruneImports keeps an otherwise unused import alive when a directive of the
+// file needs the PACKAGE (unsafe for //go:linkname, embed for //go:embed) — whatever local name the import
+// has. The table of such packages is keyed by import path and has to be consulted with the path.
+func ruleC12DirectiveImportByPath(c *ctx.Ctx, r *core.Reporter) {
+	r.Begin("C12.directive-import", "F-KEY", "pruneImports looks the directive-import table up with the unquoted import path of the import specification", 1)
+	fd := c.FuncDecl("build", "pruneImports")
+	if fd == nil {
+		r.Undecided("pruneImports", "build/build.go", "not found")
+		return
+	}
+	n := 0
+	ast.Inspect(fd.Body, func(x ast.Node) bool {
+		ix, ok := x.(*ast.IndexExpr)
+		if !ok || exprStr(ix.X) != "directiveImports" {
+			return true
+		}
+		n++
+		ok2 := false
+		if id, isIdent := ix.Index.(*ast.Ident); isIdent {
+			for _, m := range findGoPattern(fd.Body, id.Name+`, µ_ := strconv.Unquote(µin.Path.Value)`) {
+				_ = m
+				ok2 = true
+			}
+		}
+		r.Check(ok2, fmt.Sprintf("table-keyed-by-path#%d", n), c.Pos(ix.Pos()), fmt.Sprintf("`%s`: the key is strconv.Unquote(<import>.Path.Value) (with the local name as key, `import u \"unsafe\"` next to a //go:linkname directive is pruned)", exprStr(ix)))
+		return true
+	})
+	r.Check(n >= 1, "sites", c.Pos(fd.Pos()), fmt.Sprintf("%d lookups in directiveImports", n))
+}
+
+// ruleC18IsStdByLookup: whether a package is part of the standard library (and therefore selected as
+// js/wasm) is what go/build says about the located package (Goroot). Path-prefix reasoning about the
+// importing directory is not a substitute: `/x/go` is a string prefix of `/x/gopherjs-app`.
+func ruleC18IsStdByLookup(c *ctx.Ctx, r *core.Reporter) {
+	r.Begin("C18.isstd", "F-MUST", "simpleCtx.isStd answers true only with the Goroot flag of the package go/build located (or the cached copy of that answer)", 1)
+	fd := c.FuncDecl("build", "simpleCtx.isStd")
+	if fd == nil {
+		r.Undecided("isStd", "build/context.go", "not found")
+		return
+	}
+	n := 0
+	bad := ""
+	ast.Inspect(fd.Body, func(x ast.Node) bool {
+		if _, isLit := x.(*ast.FuncLit); isLit {
+			return false
+		}
+		rs, ok := x.(*ast.ReturnStmt)
+		if !ok || len(rs.Results) != 1 {
+			return true
+		}
+		n++
+		v := exprStr(rs.Results[0])
+		switch {
+		case v == "false":
+		case strings.HasSuffix(v, ".Goroot"):
+		case strings.Contains(v, ".(bool)"): // cached answer
+		default:
+			bad = nodeString(c, rs)
+		}
+		return true
+	})
+	r.Check(n >= 2 && bad == "", "true-only-from-goroot", c.Pos(fd.Pos()), "isStd returns false, the Goroot flag of the located package, or the cached answer"+ternary(bad != "", " (found `"+bad+"`)", ""))
+}
+
+// ruleC04DeferredSetup: WritePkgCode emits part of a package at load time and the rest inside
+// $pkg.$finishSetup, which runs after EVERY package has been loaded. Code that can mention a named type of
+// another package — anonymous composite types ([]T, *T, map[K]V over type arguments), function bodies,
+// method lists, type initialisers — must be in the second part: a dependency's generic code instantiated
+// with a type of its importer refers to $packages["importer"], which does not exist while the dependency
+// loads.
+func ruleC04DeferredSetup(c *ctx.Ctx, r *core.Reporter) {
+	r.Begin("C04.deferred-setup", "F-PAIR", "WritePkgCode writes AnonTypeDeclCode, FuncDeclCode, MethodListCode and TypeInitCode after it has opened $pkg.$finishSetup", 4)
+	fd := c.FuncDecl("compiler", "WritePkgCode")
+	if fd == nil {
+		r.Undecided("WritePkgCode", "compiler/compiler.go", "not found")
+		return
+	}
+	open := token.NoPos
+	ast.Inspect(fd.Body, func(x ast.Node) bool {
+		if bl, ok := x.(*ast.BasicLit); ok && strings.Contains(bl.Value, "$pkg.$finishSetup = function() {") && open == token.NoPos {
+			open = bl.Pos()
+		}
+		return true
+	})
+	if open == token.NoPos {
+		r.Undecided("finishSetup-open", c.Pos(fd.Pos()), "the template that opens $pkg.$finishSetup was not found")
+		return
+	}
+	for _, field := range []string{"AnonTypeDeclCode", "FuncDeclCode", "MethodListCode", "TypeInitCode"} {
+		pos := token.NoPos
+		ast.Inspect(fd.Body, func(x ast.Node) bool {
+			if se, ok := x.(*ast.SelectorExpr); ok && se.Sel.Name == field && pos == token.NoPos {
+				pos = se.Pos()
+			}
+			return true
+		})
+		if pos == token.NoPos {
+			r.Undecided("inside-finishSetup:"+field, c.Pos(fd.Pos()), "no write of Decl."+field)
+			continue
+		}
+		r.Check(pos > open, "inside-finishSetup:"+field, c.Pos(pos), "Decl."+field+" is written after `$pkg.$finishSetup = function() {`: it can name types of packages that are loaded later (generic code of a dependency instantiated with the importer's types)")
+	}
+}
+
+// ruleC02LazyDispatch: the flattened form of an if/else-if ladder or a switch evaluates the conditions one
+// after the other, each immediately before its `if (<cond>) { $s = N; continue; }` line: a later
+// condition (which can contain a blocking call, or any call with effects) is reached only if the earlier
+// ones were false.
+func ruleC02LazyDispatch(c *ctx.Ctx, r *core.Reporter) {
+	r.Begin("C02.lazy-dispatch", "F-PAIR", "translateBranchingStmt prints the dispatch line of a clause inside the loop that translates that clause's conditions", 1)
+	fd := c.FuncDecl("compiler", "funcContext.translateBranchingStmt")
+	if fd == nil {
+		r.Undecided("translateBranchingStmt", "compiler/statements.go", "not found")
+		return
+	}
+	// the loop over the clauses that translates conditions (calls translateCond)
+	var condLoop ast.Node
+	ast.Inspect(fd.Body, func(x ast.Node) bool {
+		switch l := x.(type) {
+		case *ast.RangeStmt:
+			if len(callsNamed(l.Body, "translateCond")) > 0 && condLoop == nil {
+				condLoop = l
+			}
+		case *ast.ForStmt:
+			if len(callsNamed(l.Body, "translateCond")) > 0 && condLoop == nil {
+				condLoop = l
+			}
+		}
+		return true
+	})
+	if condLoop == nil {
+		r.Undecided("cond-loop", c.Pos(fd.Pos()), "no loop that calls translateCond")
+		return
+	}
+	n, inside := 0, 0
+	ast.Inspect(fd.Body, func(x ast.Node) bool {
+		bl, ok := x.(*ast.BasicLit)
+		if !ok || !strings.Contains(bl.Value, "if (%s) { $s = %d; continue; }") {
+			return true
+		}
+		n++
+		if condLoop.Pos() <= bl.Pos() && bl.Pos() < condLoop.End() {
+			inside++
+		}
+		return true
+	})
+	r.Check(n >= 1 && inside == n, "dispatch-line-follows-its-condition", c.Pos(condLoop.Pos()), fmt.Sprintf("%d of %d `if (<cond>) { $s = N; continue; }` templates are printed in the loop that translates the conditions (translated up front, the temporaries and blocking calls of ALL conditions run before the first test)", inside, n))
+}
+
+// ruleC10LocalSymbolIsFunction: the local name of a go:linkname directive denotes a package-level
+// declaration. A method that happens to have the same name is a different thing; if the lookup takes it
+// for the reference, a valid directive is rejected ("must have no body") or applied to the wrong node.
+func ruleC10LocalSymbolIsFunction(c *ctx.Ctx, r *core.Reporter) {
+	r.Begin("C10.local-symbol", "F-MUST", "lookupTopNode matches a function declaration by name only if it has no receiver", 1)
+	fd := c.FuncDecl("compiler/linkname", "lookupTopNode")
+	if fd == nil {
+		r.Undecided("lookupTopNode", "compiler/linkname/linkname.go", "not found")
+		return
+	}
+	arm := armOf(fd, "*ast.FuncDecl")
+	if arm == nil {
+		r.Undecided("arm", c.Pos(fd.Pos()), "no *ast.FuncDecl arm")
+		return
+	}
+	ok := false
+	ast.Inspect(arm, func(x ast.Node) bool {
+		is, isIf := x.(*ast.IfStmt)
+		if !isIf {
+			return true
+		}
+		hasName, hasRecv := false, false
+		for _, cj := range conjuncts(is.Cond) {
+			s := squash(exprStr(cj))
+			if strings.HasSuffix(s, ".Name.Name==name") || strings.Contains(s, ".Name.Name==") {
+				hasName = true
+			}
+			if strings.HasSuffix(s, ".Recv==nil") {
+				hasRecv = true
+			}
+		}
+		if hasName && hasRecv {
+			ok = true
+		}
+		return true
+	})
+	r.Check(ok, "functions-only", c.Pos(arm.Pos()), "the name comparison is conjoined with `<decl>.Recv == nil` (a method `func (T) f()` declared before the body-less `func f()` is otherwise taken for the directive's target and the build fails)")
+}
